@@ -91,10 +91,51 @@ def gen_extract(rnd, pack='*'):
                 emit('}')
         emit('}')
 
+    kfmode = rnd.choice(['declarg', 'newcmd'])      # one known-finding mechanism per document
+    ukf = set()
+    ndef = [0]
     for _ in range(rnd.randint(2, 10)):
         ctx = rnd.choice(['top', 'top', 'top', 'text', 'text', 'unkarg', 'unkenv', 'knownenv', 'removedenv', 'item', 'comment',
-                          'skip', 'verb', 'verbatim', 'unlisted', 'group', 'declarg', 'cell', 'usermacarg', 'math'])
+                          'skip', 'verb', 'verbatim', 'unlisted', 'group', 'declarg', 'cell', 'usermacarg', 'math',
+                          'defarg', 'defbody', 'newcmd'])
+        if ctx in ('declarg', 'newcmd') and ctx != kfmode:
+            ctx = 'top'
         ctxs.add(ctx)
+        if ctx in ('defarg', 'newcmd'):
+            # a parameterless macro defined by the TeX primitive \def (evaluated also in extraction mode) or by
+            # \newcommand (known finding: not evaluated) is used inside the argument of a listed macro
+            ndef[0] += 1
+            mname = '\\ydir' + 'abcdefghijklmnopqrstuvwxyz'[ndef[0] % 26]
+            wid[0] += 1
+            body = 'w%dz' % wid[0]
+            emit(('\\def%s{%s}' if ctx == 'defarg' else '\\newcommand{%s}{%s}') % (mname, body))
+            emit(rnd.choice([' ', '\n']))
+            emit('\\' + rnd.choice(listed) + '{')
+            if rnd.random() < .5:
+                word(True)
+                emit(rnd.choice([' ', '\n']))
+            exp.append((body, None))
+            if ctx == 'newcmd':
+                ukf.add(body)
+            emit(mname + rnd.choice(['{}', ' ', '{} ']))
+            word(True)
+            emit('}')
+            emit(rnd.choice([' ', '\n', '\n\n', ' ']))
+            continue
+        if ctx == 'defbody':
+            # a macro defined by \def whose body calls a listed macro
+            ndef[0] += 1
+            mname = '\\ychp' + 'abcdefghijklmnopqrstuvwxyz'[ndef[0] % 26]
+            wid[0] += 1
+            body = 'w%dz' % wid[0]
+            emit('\\def%s#1{\\%s{%s #1}}' % (mname, rnd.choice(listed), body))
+            emit(rnd.choice([' ', '\n']))
+            emit(mname + '{')
+            exp.append((body, None))
+            word(True)
+            emit('}')
+            emit(rnd.choice([' ', '\n', '\n\n', ' ']))
+            continue
         if ctx == 'top':
             listed_call(True)
         elif ctx == 'text':
@@ -193,7 +234,7 @@ def gen_extract(rnd, pack='*'):
                 pos[0] -= len(parts.pop())
             pos[0] -= len(parts.pop())
         emit(rnd.choice([' ', '\n', '\n\n', ' ']))
-    return ''.join(parts), ','.join(listed), exp, kfwords, ctxs
+    return ''.join(parts), ','.join(listed), exp, kfwords, ctxs, ukf
 
 
 def bfs_model(files, start, skip):
@@ -266,7 +307,7 @@ class C18(core.Check):
         return self.judge_include(case)
 
     def judge_extract(self, case):
-        src, extr, exp, nkf, ctxs = gen_extract(random.Random(case['s']), case['pack'])
+        src, extr, exp, nkf, ctxs, ukf = gen_extract(random.Random(case['s']), case['pack'])
         cnt = {'extract_docs': 1, 'listed_calls': len(exp)}
         for c in ctxs:
             cnt['ctx_' + c] = 1
@@ -278,7 +319,7 @@ class C18(core.Check):
             cnt['extract_with_defs'] = 1
         (t, p), err = tex.run(src, extr=extr, pack=case['pack'], lang=case['lang'], nosp=case['nosp'], **extra)
         obs = [(c, q) for c, q in zip(t, p) if not c.isspace()]
-        want = [(c, off + i + 1) for w, off in exp for i, c in enumerate(w)]
+        want = [(c, None if off is None else off + i + 1) for w, off in exp for i, c in enumerate(w)]
         detail = dict(src=src, extr=extr, plain=t, want=''.join(c for c, _ in want), stderr=err)
         got_s = ''.join(c for c, _ in obs)
         want_s = ''.join(c for c, _ in want)
@@ -292,10 +333,15 @@ class C18(core.Check):
                 if ok_rest == got_s:
                     return dict(ok=False, nt=True, key='extract:nested-in-declared-macro-argument', cnt=cnt, obs=None,
                                 detail=detail)
+            if missing and not extra and set(missing) == set(ukf):
+                # exactly the expansions of \newcommand macros used inside listed arguments are missing
+                if ''.join(c for w, off in exp if w not in ukf for c in w) == got_s:
+                    return dict(ok=False, nt=True, key='extract:newcommand-macro-inside-listed-argument', cnt=cnt,
+                                obs=None, detail=detail)
             key = 'extract:text:' + ('leak' if extra else 'missing' if missing else 'order')
             return dict(ok=False, nt=True, key=key, cnt=cnt, obs=None, detail=detail)
         for (c, q), (c2, q2) in zip(obs, want):
-            if q != q2:
+            if q2 is not None and q != q2:
                 detail['map'] = list(p)
                 return dict(ok=False, nt=True, key='extract:position', cnt=cnt, obs=None, detail=detail)
         if err:
